@@ -38,7 +38,7 @@ SCENS = {1: "add(3) reference_with_offset(R+2,4) add(2)", 2: "reference(R,6)", 3
          6: "file segment (read mode, short preads) behind add(2)", 7: "reference chain moved by add_buffer/remove_buffer"}
 NBUF = {1: 1, 2: 1, 3: 3, 4: 3, 5: 2, 6: 1, 7: 3}
 LOOPS = {"vp_bytes.0": 18, "vpb_init.0": 130, "vpb_append.0": 130, "vpb_copyout.0": 66, "vp_evb_byte.0": 8, "vp_evb_check.0": 8, "check_all.0": 5, "check_all.1": 8,
-         "chains_into.0": 8, "chains_into.1": 5, "R_new.0": 8, "harness_refs.0": 12, "harness_refs.1": 12, "harness_refs.2": 12, "harness_refs.3": 5,
+         "chains_into.0": 8, "chains_into.1": 5, "R_new.0": 8, "harness_refs.0": 12, "harness_refs.1": 12, "harness_refs.2": 12, "harness_refs.3": 5, "set_script.0": 6, "check_all.2": 8, "check_all.3": 8,
          "vp_io_pread.0": 18, "vp_io_mmap.0": 26, "evbuffer_file_segment_materialize.0": 6}
 
 def ob(name, defs, desc, rec=1, ndebug=False, timeout=900, mem_gb=8, **kw):
@@ -52,29 +52,42 @@ def ob(name, defs, desc, rec=1, ndebug=False, timeout=900, mem_gb=8, **kw):
     o.update(kw)
     return o
 
-KF_TEXT = ["C15: bytes read back differ", "C15: evbuffer_pullup result differs", "C15: referenced user memory was modified"]
+KF_TEXT = ["C15: a chain shared by evbuffer_add_buffer_reference was extended in place", "C15: bytes read back differ", "C15: evbuffer_pullup result differs"]
 
 KINDS = ["drain", "remove", "copyout", "pullup", "free"]
+SCRIPT_DESC = {0: "pread 4", 1: "pread 1,3", 2: "pread 2,1,1", 3: "pread 3,error", 4: "pread 2,EOF", 5: "pread error", 6: "pread EOF", 7: "mmap fails, pread 6",
+               8: "mmap fails, pread 2,4", 9: "mmap fails, pread 5,error"}
+SCRIPT_FAILS = (3, 4, 5, 6, 9)
 
 def obligations(tier):
     obs = []
+    # (scenario, file offset, target buffer, pread script)
     if tier == "quick":
-        plan = [(1, None, 0), (2, None, 0), (3, None, 0), (3, None, 2), (4, None, 0), (5, 3, 0), (5, 3, 1), (5, 10, 0), (5, 10, 1), (6, 3, 0), (7, None, 0), (7, None, 2)]
+        plan = [(1, None, 0, None), (2, None, 0, None), (3, None, 0, None), (3, None, 2, None), (4, None, 0, None), (5, 3, 0, None), (5, 3, 1, None),
+                (5, 10, 0, None), (5, 10, 1, None), (5, 3, 0, 8), (6, 3, 0, 1), (7, None, 0, None), (7, None, 2, None)]
         kinds = [1, 3, 4]
         twins = [False]
     else:
-        plan = [(s, fo, t) for s in SCENS for fo in ([3] if s == 6 else [0, 3, 8, 10] if s == 5 else [None]) for t in range(NBUF[s])]
+        plan = [(s, None, t, None) for s in (1, 2, 3, 4, 7) for t in range(NBUF[s])]
+        plan += [(5, fo, t, None) for fo in (0, 3, 8, 10) for t in (0, 1)] + [(5, 3, t, sc) for t in (0, 1) for sc in (7, 8)]
+        plan += [(6, 3, 0, sc) for sc in (0, 1, 2)]
         kinds = [0, 1, 2, 3, 4]
         twins = [False, True]
-    for s, fo, t in plan:
+    for s, fo, t, sc in plan:
         rec = 2 if s in (3, 4) else 1
         for kd in kinds:
             for nd in twins:
                 if nd and kd not in (1, 3): continue
                 defs = ["SCEN=%d" % s, "VP_TARGET=%d" % t, "VP_KIND=%d" % kd] + (["FOFF=%d" % fo] if fo is not None else []) + (["KF_EXCLUDE_PULLUP_MCAST"] if s == 3 else [])
-                obs.append(ob("scen%d%s_%s_%s" % (s, "" if fo is None else "_off%d" % fo, "ABS"[t], KINDS[kd]), defs,
-                              "[%s]%s, then %s on buffer %s%s" % (SCENS[s], "" if fo is None else ", file offset %d" % fo, KINDS[kd] + ("" if kd == 4 else " of 0..12 bytes"), "ABS"[t],
-                                                               " (excluding the KF-C12-pullup-immutable-multicast cases)" if s == 3 and kd == 3 else ""), rec=rec, ndebug=nd))
+                if sc is not None: defs += ["VP_SCRIPT=%d" % sc] + (["VP_MMAP_FAIL"] if s == 5 else [])
+                obs.append(ob("scen%d%s%s_%s_%s" % (s, "" if fo is None else "_off%d" % fo, "" if sc is None else "_s%d" % sc, "ABS"[t], KINDS[kd]), defs,
+                              "[%s]%s%s, then %s on buffer %s%s" % (SCENS[s], "" if fo is None else ", file offset %d" % fo, "" if sc is None else ", " + SCRIPT_DESC[sc],
+                                                                 KINDS[kd] + ("" if kd == 4 else " of 0..12 bytes"), "ABS"[t],
+                                                                 " (excluding the KF-C12-pullup-immutable-multicast cases)" if s == 3 and kd == 3 else ""), rec=rec, ndebug=nd))
+    # unreadable file: segment creation / use must fail cleanly
+    for s, sc in ([(6, 3), (5, 9)] if tier == "quick" else [(6, 3), (6, 4), (6, 5), (6, 6), (5, 9)]):
+        defs = ["SCEN=%d" % s, "VP_TARGET=0", "VP_KIND=4", "FOFF=3", "VP_SCRIPT=%d" % sc, "VP_SCRIPT_FAILS"] + (["VP_MMAP_FAIL"] if s == 5 else [])
+        obs.append(ob("scen%d_unreadable_s%d" % (s, sc), defs, "[%s], %s: the segment cannot be filled, nothing is added, nothing leaks" % (SCENS[s], SCRIPT_DESC[sc])))
     # finding (grpD's fix file): evbuffer_pullup writes into a chain shared through evbuffer_add_buffer_reference
     obs.append(ob("scen3_kf_pullup", ["SCEN=3", "VP_TARGET=0", "VP_KIND=3", "KF_ONLY_PULLUP_MCAST"],
                   "[%s]: pullup on A of more than its leading shared chain holds (KF-C12-pullup-immutable-multicast)" % SCENS[3], rec=2,
